@@ -516,7 +516,7 @@ class BufferWorld:
         for fi in range(len(self.prog['foreign'])):
             ths.append(sch.spawn(partial(self.foreign, fi), f'foreign{fi}'))
         sch.join(ths)
-        self.aa._CROSS_LOOP_POOL.shutdown(wait=True)
+        self.sch.seams.shutdown_pools()
 
     # --------------------------------------------------------------- judge
     def judge(self, props):
@@ -652,6 +652,7 @@ def execute(prog, sspec, props=('C03',), keep_log=False):
     sch.log('prog', json.dumps(prog, sort_keys=True))
     w = BufferWorld(prog, sch, aa)
     seams = AsyncioSeams(aa).install()
+    sch.seams = seams
     install_policy()
     try:
         try:
